@@ -212,6 +212,23 @@ namespace vf
         return b;
     }
 
+    // operator sequences are movable values: a sequence object that held another (valid) sequence and is then assigned this one
+    // must build the same graph as a sequence created directly
+    inline GraphBundle build_graph_via_reassigned_sequence(grid_t& grid, const std::vector<OpSpec>& specs, const std::vector<OpSpec>& previous)
+    {
+        GraphBundle b;
+        b.specs = specs;
+        for (auto& s : specs)
+            b.ops.push_back(make_op(s));
+        std::vector<op_var> prev_ops;
+        for (auto& s : previous)
+            prev_ops.push_back(make_op(s));
+        auto seq = fs::make_flow_operator_sequence<impl_t>(prev_ops);
+        seq = fs::make_flow_operator_sequence<impl_t>(b.ops);
+        b.graph = std::make_unique<graph_t>(grid, std::move(seq));
+        return b;
+    }
+
     // a second graph built from the *same* operator objects (an operator object may be handed to several graphs; whatever
     // an operator needs to remember between updates belongs to the graph that runs it)
     inline GraphBundle build_graph_sharing_operators(grid_t& grid, const GraphBundle& other)
